@@ -55,6 +55,17 @@ def comp_sources(quick, rng):
         "lambda e: [j.pt if j.eta > 0 else -j.pt for j in e.jets]",
         "lambda e: [j.pt for j in e.jets.Where(lambda k: k.pt > 0)]",
         "lambda e: [(j.pt, [t.pt for t in j.tracks if t.pt > e.x]) for j in e.jets if j.eta > e.y]",
+        # a loop variable named like a module global (j = 7, q = 11 exist), re-bound by a nested
+        # comprehension in one `if` and used again in a later one (seed C06_h: leaving the inner
+        # scope un-bound the name for the rest of the outer comprehension)
+        "lambda e: [j.pt for j in e.jets if len([j for j in j.tracks if j.pt > 0]) >= 0 if j.pt > 0]",
+        "lambda e: [q.pt + 1 for q in e.jets if len([q.pt for q in q.tracks]) >= 0 if q.eta < 2]",
+        "lambda e: [(j.eta, len([j.pt for j in j.tracks])) for j in e.jets if j.pt > 0]",
+        # ... with the name used BARE afterwards (an attribute of it would hide the replacement)
+        "lambda e: [q * 2 for q in [k.pt for k in e.jets] if len([q for q in e.jets]) >= 0 if q > 1]",
+        "lambda e: [j + 1 for j in [k.eta for k in e.jets] if len([j.pt for j in e.jets if j.pt > 0]) >= 0 if j < 2]",
+        "lambda e: [(q, len([q for q in e.jets])) for q in [k.pt for k in e.jets] if q != e.x]",
+        "lambda e: e.jets.Select(lambda q: [q.pt for q in q.tracks]).Select(lambda q: len(q))",
     ]
     return out + nested
 
@@ -200,15 +211,24 @@ def run(t):
                    "multi-for are refused; non-trivial = >= 1 if-clause or nesting / >= 3 fields "
                    "with keywords; distinct by text")
     comps = comp_sources(quick, rng)
+    n_str = len(comps)
+    # the comprehensions that nest or re-bind names are ALSO given as Python callables: the capture
+    # pass runs before the lowering and has to respect the same binders (seed C06_h); the module
+    # has globals j, q, e2 with the names of loop variables
+    comps = comps + [c for c in comps if c.count(" for ") > 1 and "'" not in c]
     parts = [srcgen.PRELUDE, DATA_HEADER]
     for i, lam in enumerate(comps):
-        parts.append(srcgen.case_block(i, f"ds.Select({lam!r})"))      # string lambdas
+        if i < n_str:
+            parts.append(srcgen.case_block(i, f"ds.Select({lam!r})"))      # string lambdas
+        else:
+            parts.append(srcgen.case_block(i, f"ds.Select({lam})"))        # callables
         parts.append(f"_native({i}, ({lam}))\n")
     mod = srcgen.run_module("".join(parts), "c06")
     for rec in mod.R:
         i = rec[0]
         lam = comps[i]
-        t.case("C06:" + lam, " if " in lam or lam.count(" for ") > 1, sample=lam)
+        form = "str" if i < n_str else "callable"
+        t.case(f"C06:{form}:" + lam, " if " in lam or lam.count(" for ") > 1, sample=lam)
         rp = {"kind": "C06", "key": lam}
         t.contract("resolve_syntatic_sugar: sem(lowered) == CPython's comprehension")
         if rec[1] == "err":
